@@ -125,6 +125,24 @@ REGISTRY = {
         "nontrivial_rule": "a case is one quiescent point of one workload; non-trivial = at least one live key; distinct by 64-bit hash of the state line",
         "assumptions": ["quiescence = flush() returned Ok on a healthy device (retirements drained)"],
     },
+    "C07": {
+        "title": "concurrent operations on a key are atomic and timestamp-ordered",
+        "teq": [
+            {"engine": "conc", "quick": {"n": 250, "mode": "sched"}, "thorough": {"tier": "thorough", "mode": "sched"}, "oracle": True, "mismatch_is_failure": False, "timeout": 3400,
+             "nontrivial": lambda case, res: res.count(";") >= 1 and ("older" in res or "false" in res or "i:" in res),
+             "distinct_key": lambda case, res: case.split("prog=")[-1] + res,
+             "what": "T-sched: 2-4 real threads with 1-4 calls each (get, insert, delete, compare-and-swap, increment, insert-if-absent, JSON patch; explicit timestamps with collisions, far-future ones, automatic ones; slice and Bytes spellings; memory-only and persistent with the flusher and cache on) are parked by a controller at the H7 points (loop tops and the instruction before every guarded block) and released one segment at a time following a random schedule; Model.Sched runs the same programs under the same schedule; every response and the final contents must be equal. Oracle: no call hangs, no unexpected error kind"},
+            {"engine": "conc", "quick": {"n": 250, "mode": "hist", "seedoff": 7}, "thorough": {"tier": "thorough", "mode": "hist", "seedoff": 7}, "oracle": True, "mismatch_is_failure": True, "timeout": 3400,
+             "nontrivial": lambda case, res: case.count(",") >= 16 and res == "lin=1",
+             "distinct_key": lambda case, res: case,
+             "what": "real histories -- half from controlled schedules, half from free-running threads that yield or sleep at random at the H7 points -- with the positions of every invocation and response in one global order, followed by a final get of every key, are judged by the extracted, proved-sound checker Model.Lin.lin_check: a history it rejects has no sequential last-writer-wins witness respecting real time even with the two permitted refusals"},
+        ],
+        "nontrivial_rule": "sched: a case is one (programs, schedule) pair, non-trivial when at least two threads ran and some call was refused or incremented; hist: a case is one complete history, non-trivial when it has at least 4 calls and was accepted; distinct by the full text",
+        "assumptions": ["segments between H7 points are atomic in the model: each contains one hash-table access (scc read or entry-guarded block) plus reads of monotone data (shard clock, retired_at); scc entry guards are exclusive per key",
+                        "the wall clock is abstracted to 2^60; the harness uses explicit timestamps below 2^20 or from 2^62, which makes every comparison order-isomorphic",
+                        "lin_check is proved sound, not complete; its witness gives automatic writes the smallest admissible timestamp",
+                        "values stay resident or are offloaded by the running flusher; TTL is off in these runs"],
+    },
     "C09": {
         "title": "I/O failures are reported, contained and never destroy durable data",
         "teq": [
